@@ -407,7 +407,8 @@ static int bufr_load_tableB( BUFR_Tables *tables, BufrTablesSet *tbls, const cha
    if (tbls->tableB == NULL)
       {
       tbls->tableB = bufr_tableb_read( NULL, filename, local, data_cat_desc, &data_cat, &version );
-      tbls->version = version;
+      if (tbls->tableB != NULL)  /* version is not set when the file cannot be read */
+         tbls->version = version;
       if (bufr_is_debug() && (tbls->tableB != NULL))
          {
          char buf[1024];
